@@ -29,7 +29,7 @@ REQUIRED = {
     "warmup_snapshots_checked": 100, "scheduler_runs": 4, "ducb_choices_checked": 200,
     "selector_protocol_checks": 8, "rollout_helper_runs": 2,
 }
-TIMEOUT = {"quick": 1500, "thorough": 3400}
+TIMEOUT = {"quick": 1500, "thorough": 7000}
 ASSUMPTIONS = [
     "overshoot that the documentation grants (whole episodes for REINFORCE / "
     "actor-critic, whole rollouts for A2C / PPO) is allowed exactly as documented",
@@ -57,7 +57,7 @@ def make_script(rng, n=5):
 def gen_cases(tier, seed):
     rng = np.random.default_rng(seed + 1111)
     cases = []
-    reps = 1 if tier == "quick" else 8
+    reps = 1 if tier == "quick" else 20
     for r in range(reps):
         for algo in LOOP:
             variants = ["budget", "episodes", "zero", "start_mid"]
